@@ -26,7 +26,7 @@ def main():
     os.makedirs(os.path.dirname(WT), exist_ok=True)
     if not os.path.isdir(WT):
         sh(["git", "-C", "/repo", "worktree", "add", "--detach", WT, "HEAD"])
-    sh(["git", "-C", WT, "checkout", "--", "."])
+    sh(["git", "-C", WT, "checkout", "--", "."]); sh(["git", "-C", WT, "clean", "-fdq", "src"])
     sh(["git", "-C", WT, "checkout", "--detach", BASES.get(name) or sh(["git", "-C", "/repo", "rev-parse", "HEAD"]).stdout.decode().strip()])
     p = sh(["git", "-C", WT, "apply", patch])
     if p.returncode:
@@ -34,7 +34,7 @@ def main():
         return 2
     tp = sh(["cargo", "test", "--workspace", "--no-fail-fast", "--offline"], cwd=WT, env=env)
     passed = "137 passed; 0 failed" in tp.stdout.decode("utf-8", "replace") and tp.returncode == 0
-    sh(["git", "-C", WT, "checkout", "--", "."])
+    sh(["git", "-C", WT, "checkout", "--", "."]); sh(["git", "-C", WT, "clean", "-fdq", "src"])
     print("tests_pass=%s" % passed)
     if sh(["git", "-C", "/repo", "status", "--porcelain", "--untracked-files=no"]).stdout.decode().strip():
         print("/repo not clean")
@@ -47,7 +47,7 @@ def main():
             print("patch does not apply to /repo")
             return 2
         in_repo = False
-        sh(["git", "-C", WT, "checkout", "--", "."])
+        sh(["git", "-C", WT, "checkout", "--", "."]); sh(["git", "-C", WT, "clean", "-fdq", "src"])
         sh(["git", "-C", WT, "checkout", "--detach", base])
         if sh(["git", "-C", WT, "apply", patch]).returncode:
             print("patch does not apply to its base either")
@@ -69,9 +69,9 @@ def main():
                     shutil.copy(f, dst)
     finally:
         if in_repo:
-            sh(["git", "-C", "/repo", "checkout", "--", "."])
+            sh(["git", "-C", "/repo", "checkout", "--", "."]); sh(["git", "-C", "/repo", "clean", "-fdq", "src"])
         else:
-            sh(["git", "-C", WT, "checkout", "--", "."])
+            sh(["git", "-C", WT, "checkout", "--", "."]); sh(["git", "-C", WT, "clean", "-fdq", "src"])
         sh(["git", "-C", VERIF, "checkout", "--", "evidence"])
         for f in glob.glob(os.path.join(VERIF, "replays", "*.json")):
             os.remove(f)
